@@ -1,6 +1,6 @@
 #!/bin/bash
-# usage: benigntest.sh <dir-with-patch.diff>  — applies a behaviour-preserving refactoring in the scratch worktree and
-# runs ALL checks; any VIOLATED/UNDECIDED line is a false alarm.
+# usage: benigntest.sh <dir-with-patch.diff>  — applies a behaviour-preserving refactoring in a scratch worktree and
+# runs ALL checks (in parallel); any VIOLATED/UNDECIDED line is a false alarm.
 set -u
 export GOFLAGS=-mod=mod GOPROXY=off GOSUMDB=off GOTOOLCHAIN=local; unset GOWORK
 D=$(realpath "$1"); W=/var/tmp/frp-mut
@@ -9,10 +9,13 @@ reset; cp /verif/known_findings.txt /tmp/ev-mut/ 2>/dev/null
 git -C $W checkout -q --detach $(git -C /repo rev-parse HEAD)
 if ! git -C $W apply "$D/patch.diff" 2>/dev/null; then echo "RESULT $1 patch=DOES-NOT-APPLY"; reset; exit 2; fi
 (cd $W && go build ./... >/dev/null 2>&1) || { echo "RESULT $1 build=FAIL"; reset; exit 2; }
-N=0
+T=$(mktemp -d)
 for P in $(seq -w 1 20); do
-  OUT=$(/verif/bin/frpsa check -prop C$P -repo $W -verif /tmp/ev-mut 2>&1 | grep -E "^(VIOLATED|UNDECIDED|ERROR)" | cut -c1-260)
-  if [ -n "$OUT" ]; then echo "$OUT"; N=$((N+1)); fi
+  ( mkdir -p $T/C$P; /verif/bin/frpsa check -prop C$P -repo $W -verif $T/C$P 2>&1 | grep -E "^(VIOLATED|UNDECIDED|ERROR)" | cut -c1-260 > $T/out.$P ) &
 done
+wait
+N=0
+for P in $(seq -w 1 20); do if [ -s $T/out.$P ]; then cat $T/out.$P; N=$((N+1)); fi; done
+rm -rf $T
 echo "RESULT $1 false_alarm_properties=$N"
 reset
